@@ -45,6 +45,10 @@ def memmap(snap):
 def pred(snap, op, prev, exc):
     fails = []
     name = op["op"]
+    if snap.get("out") == "err:hang":        # harness/sc.py watchdog: the call never came back
+        return [] if getattr(exc, "presumed", False) else [("call-does-not-return", str(exc))]
+    if snap.get("garbage"):                  # harness/sc.py snapshot: something that was never given as an ID is stored as one
+        return [("id-outside-domain", snap["garbage"])]
     nodes, edges = snap["nodes"], snap["edges"]
     mem = memmap(snap)
     memb = {k(n): (fs(es) if isinstance(es, list) else None) for n, es in snap["memb"]}
@@ -59,6 +63,9 @@ def pred(snap, op, prev, exc):
         if isinstance(ms, list) and not ms:
             fails.append(("empty-simplex", f"simplex {e!r} has no members"))
             break
+    # ---- a simplex is an immutable, hashable node set (S.edges.members(e) is a frozenset, as documented)
+    if snap.get("memtype"):
+        fails.append(("simplex-not-frozenset", f"members of simplices {snap['memtype']} are not handed out as frozensets"))
     # ---- two-way incidence
     if None in nodes or None in edges:
         fails.append(("none-id", "None is a node or simplex id"))
@@ -301,6 +308,12 @@ TRUSTED = TRUSTED_COMMON + [
 def run(ctx):
     ok = build_and_audit(ctx, "XgiModel.Props.C03", ["XgiModel.C03.Drive"])
     ctx.rule = RULE
+    try:        # a class whose empty instance cannot be built or read is reported, not a reason to crash
+        M.snapshot(M.factory())
+    except BaseException as ex:  # noqa
+        ctx.violation("SimplicialComplex", "empty-network-unusable", {"class": M.NAME, "ops": []},
+                      detail=f"xgi.SimplicialComplex() cannot be created / observed: {type(ex).__name__}: {str(ex)[:200]}")
+        return finish(ctx, trusted_base=TRUSTED)
     extra = []
     if not ctx.quick:
         extra, na = small_scope()
